@@ -175,9 +175,36 @@ func (st *pkgState) takePre() []ast.Stmt { return nil }
 func (st *pkgState) inlineOnce(fi *funcInfo, s, next ast.Stmt) (repl []ast.Stmt, usedNext, ok bool) {
 	pos := s.Pos()
 	blank := func() ast.Expr { return &ast.Ident{NamePos: pos, Name: "_"} }
+	// a helper call nested in the arguments (or receiver) of the statement's call is evaluated first:
+	// it is hoisted first, the statement is revisited afterwards
+	nested := false
+	{
+		var top *ast.CallExpr
+		switch x := s.(type) {
+		case *ast.ExprStmt:
+			top, _ = x.X.(*ast.CallExpr)
+		case *ast.ReturnStmt:
+			if len(x.Results) == 1 {
+				top, _ = x.Results[0].(*ast.CallExpr)
+			}
+		case *ast.AssignStmt:
+			if len(x.Rhs) == 1 {
+				top, _ = x.Rhs[0].(*ast.CallExpr)
+			}
+		}
+		if top != nil {
+			if fc := st.firstCall(s); fc != nil && fc != top && st.numResults(fc) == 1 {
+				nested = true
+			}
+		}
+	}
 	// --- statements that are exactly one call, possibly with an assignment
 	switch x := s.(type) {
+	case nil:
 	case *ast.ExprStmt:
+		if nested {
+			break
+		}
 		if call, ok := x.X.(*ast.CallExpr); ok && st.inlinable(call) {
 			n := st.numResults(call)
 			var lhs []ast.Expr
@@ -190,7 +217,7 @@ func (st *pkgState) inlineOnce(fi *funcInfo, s, next ast.Stmt) (repl []ast.Stmt,
 			return nil, false, false
 		}
 	case *ast.ReturnStmt:
-		if len(x.Results) == 1 {
+		if len(x.Results) == 1 && !nested {
 			if call, ok := x.Results[0].(*ast.CallExpr); ok && st.inlinable(call) && st.sameResults(fi, call) && !st.hasDefers(call) {
 				if body, ok := st.expand(fi, call, sink{keepReturns: true}); ok {
 					return append(body, &ast.EmptyStmt{Semicolon: pos, Implicit: true}), false, true
@@ -221,7 +248,7 @@ func (st *pkgState) inlineOnce(fi *funcInfo, s, next ast.Stmt) (repl []ast.Stmt,
 			}
 		}
 	case *ast.AssignStmt:
-		if len(x.Rhs) == 1 {
+		if len(x.Rhs) == 1 && !nested {
 			if call, ok := x.Rhs[0].(*ast.CallExpr); ok && st.inlinable(call) && (x.Tok == token.DEFINE || x.Tok == token.ASSIGN) && simpleLHS(x.Lhs) && len(x.Lhs) == st.numResults(call) {
 				pre := st.hoistDefs(x, call)
 				sk := sink{lhs: x.Lhs, defs: st.definedNames(x)}
